@@ -198,7 +198,7 @@ static Reg r_maxes(
     for (int to = 1; to < 6; ++to) {
       AuxAngle r1 = A.Convert(0, to, AuxAngle(y, x), true), r2 = B.Convert(0, to, AuxAngle(y, x), true);
       double t1 = r1.tan(), t2 = r2.tan();
-      if (std::isnan(t1) || std::isnan(t2) || t2 == 0 || std::isinf(t2)) continue;
+      if (std::isnan(t1) || std::isnan(t2) || t2 == 0 || std::isinf(t2) || std::fabs(t2) < 1e-290 || std::fabs(y / x) < 1e-290) continue;   // denormal tangents are quantised
       double extra = to == 4 ? std::fabs(std::asinh(y / x) - std::asinh(t2)) : 0;
       if (f <= -1 && to == 5) continue;     // [class:authalic-prolate]
       if (!(std::fabs(t1 / t2 - 1) <= 64 * EPSm * (cf + extra) * 4)) bad("auxlat-axes", std::string("axes(a, b) and (a, f) disagree for ") + AUXN[to] + ": " + sd(t1) + " vs " + sd(t2) + " (a=" + sd(aa) + " b=" + sd(b) + " tan=" + sd(y / x) + ")");
